@@ -454,6 +454,8 @@ class SX:
         self.call_hook = None              # callable(sx, call_node, func_value, args, kwargs, state, frame) -> list[(State,V)] | None
         self.nstates = 0
         self.div_zero_sites = []
+        self.fn_transform = None           # callable(FunctionDef) -> FunctionDef: semantic-preserving normalisation before evaluation
+        self._fn_cache = {}
         self.div_sites = []                # (BinOp node, denominator term, guards) of every division (track_div_zero)
         self.guard_sources = {}            # (kind, key) of a guard -> source texts of the tests that produced it
         self.variable_kinds = {}           # recorded-variable name -> quantity kind (typing of time_variables[...])
@@ -550,6 +552,11 @@ class SX:
         """evaluate a function; returns list[Outcome]"""
         if depth > MAX_DEPTH:
             raise CannotDecide(f'inlining depth exceeded at {fn.name}')
+        if self.fn_transform is not None:
+            key = id(fn)
+            if key not in self._fn_cache:
+                self._fn_cache[key] = (fn, self.fn_transform(fn))      # keep fn alive: id() keys
+            fn = self._fn_cache[key][1]
         st = state.copy() if state is not None else State()
         caller_env = st.env
         env = {}
